@@ -258,6 +258,12 @@ def rule_copy(ctx: Ctx, rule: str = "C15.any"):
         first = expand1(e.term.args[0], evs) if e.term.args else None
         if isinstance(first, ast.Call) and show(first.func) in ("deepcopy", "copy.deepcopy", "copy", "copy.copy") and show(first.args[0]) == spec:
             deep = _is_deepcopy(ctx, first, fn)
+            if not deep:
+                from ..shapes import shallow_copy_missing
+
+                lost = shallow_copy_missing(ctx, spec_init.cls.name, fields)
+                rep.check(not lost, rule, e.loc(), "copy(spec) keeps every field of the original (func, group, convention/event flags, condition, "
+                          "priority, expected_value): the spec class has no __copy__ that drops one", fn.key, norm_stmt(e.node), missing=lost or [])
             rep.check(not deep, rule, e.loc(), "each spec is copied whole and shares its callable: a deep copy would clone the object a bound-method "
                       "guard/action belongs to, so the per-state copies would consult a stale clone (unlike the explicit declaration)", fn.key,
                       norm_stmt(e.node))
@@ -312,6 +318,20 @@ def rule_copy(ctx: Ctx, rule: str = "C15.any"):
 
 def rule_or(ctx: Ctx):
     rep = ctx.rep
+    tl = ctx.p.cls("TransitionList")
+    inplace = [(nm, ctx.p.lookup_method(tl, nm)) for nm in ("__ior__", "__iadd__", "__iand__", "__ixor__")]
+    for nm, m in inplace:
+        if m is None:
+            continue
+        # `x = y; x |= z` must declare what `x = y | z` declares: an in-place operator that extends (and returns) the left
+        # operand also changes every other event that shares the list
+        for p in ctx.paths(m, inline=None, exc_edges="none"):
+            if p.kind != "return":
+                continue
+            v = xshow(p.value, p.events)
+            fresh = v.startswith("TransitionList(") or v in (f"self | {m.params[1]}", f"self.__or__({m.params[1]})")
+            rep.check(fresh, "C15.or", m.loc(), f"`a {nm[3:-2].replace('or', '|').replace('add', '+')}= b` builds a new list like `a | b` "
+                      "(the left operand, which other events may share, is not extended in place)", m.key, f"return {v}")
     fn = ctx.fn("TransitionList.__or__")
     for p in ctx.paths(fn, inline=None, exc_edges="none"):
         v = xshow(p.value, p.events) if p.kind == "return" else ""
